@@ -1,24 +1,73 @@
 (** C09 — parse accepts exactly well-formed expressions and returns the term they denote.
 
-    PARTIAL at the level of theorems: what is proved so far about the model of the parser is the
-    lexical clause for De Bruijn notation below.  The main clause ("parse = reference parse on
-    every input") is decided by the check through (i) the correspondence of the model with the
-    implementation and (ii) the reference lexer + recursive-descent parser of Spec/Grammar.v run
-    against the implementation on exhaustive token sequences, their renderings, mutated and
-    arbitrary Unicode inputs. *)
-From LC Require Import Model.Parser Proofs.ParserLex.
+    [ref_parse] (Spec/Grammar.v) is the reference: a lexer automaton over the documented lexical
+    elements, name resolution by lexical scoping, and a recursive-descent parser for
+        G ::= A+ | A* λ G        A ::= index | name | ( G )
+    with left-nested application.  The theorems below are about the model of src/parser.rs
+    (Model/Parser.v: tokenize_dbr, tokenize_cla, convert_classic_tokens, get_ast, fold_exprs,
+    fold_terms, parse) and hold for EVERY input string in either notation. *)
+From LC Require Import Spec.Grammar Model.Parser Proofs.ParserLex Proofs.ParserCore Proofs.ParserEquiv.
 
-(** the first character that cannot start a token is reported with its character index *)
-Theorem C09_invalid_character_dbr_partial : forall pre c post,
+Definition nota (classic : bool) : notation := if classic then Classic else DeBruijn.
+
+(** the model returns the denoted term on well-formed input, the documented InvalidCharacter on a
+    character that cannot start a token, and some Err on every other ill-formed input *)
+Theorem C09_parse_is_reference : forall s classic,
+  match ref_parse classic s with
+  | RefOk t => parse s (nota classic) = inr t
+  | RefBadStart i c => parse s (nota classic) = inl (InvalidCharacter i c)
+  | RefErr => exists e, parse s (nota classic) = inl e
+  end.
+Proof. exact parse_is_reference. Qed.
+
+(** "succeeds exactly when well-formed", "never a silently truncated parse" *)
+Theorem C09_accepts_only_well_formed : forall s classic t,
+  parse s (nota classic) = inr t <-> ref_parse classic s = RefOk t.
+Proof.
+  intros s classic t. pose proof (parse_is_reference s classic) as H. unfold nota.
+  destruct (ref_parse classic s) as [t'|i c|]; split; intros E.
+  - rewrite H in E. congruence.
+  - inversion E; subst; auto.
+  - rewrite H in E. discriminate.
+  - discriminate.
+  - destruct H as [e H]. rewrite H in E. discriminate.
+  - discriminate.
+Qed.
+
+(** whitespace, the choice of glyph and anything else the lexer abstracts from never change the
+    result: two inputs with the same reference parse have the same parse *)
+Theorem C09_same_tokens_same_result : forall s1 s2 c1 c2 t,
+  ref_parse c1 s1 = RefOk t -> ref_parse c2 s2 = RefOk t ->
+  parse s1 (nota c1) = inr t /\ parse s2 (nota c2) = inr t.
+Proof. intros s1 s2 c1 c2 t H1 H2. split; apply C09_accepts_only_well_formed; auto. Qed.
+
+(** the index-level core: get_ast followed by fold_exprs is the recursive-descent parser, on every
+    token list (balanced or not) *)
+Theorem C09_index_parser : forall toks,
+  match rparse toks with
+  | Some t => pipeline toks = inr t
+  | None => exists e, pipeline toks = inl e
+  end.
+Proof. exact pipeline_rparse. Qed.
+
+(** name resolution of the model is lexical scoping *)
+Theorem C09_name_resolution : forall cts, convert_classic_tokens cts = resolve (map atok_of_ctoken cts).
+Proof. exact convert_is_resolve. Qed.
+
+(** the first character that cannot start a token is reported with its character index (De Bruijn) *)
+Theorem C09_invalid_character_dbr : forall pre c post,
   forallb dbr_char_ok pre = true -> dbr_char_ok c = false ->
   parse (pre ++ c :: post) DeBruijn = inl (InvalidCharacter (length pre) (code c)).
 Proof. exact parse_dbr_invalid_character. Qed.
 
-(** the model is a total function into [ParseError + Term]: none of the partial operations of the
-    Rust code (terms.remove(0), stack.len() - inner_stack_count, tokens.len() - *pos) is reachable
-    in a failing state, since each is guarded in the mirror by a pattern match *)
+(** the model is a total function into ParseError + Term *)
 Theorem C09_total : forall s n, exists r, parse s n = r.
 Proof. intros; eauto. Qed.
 
-Print Assumptions C09_invalid_character_dbr_partial.
+Print Assumptions C09_parse_is_reference.
+Print Assumptions C09_accepts_only_well_formed.
+Print Assumptions C09_same_tokens_same_result.
+Print Assumptions C09_index_parser.
+Print Assumptions C09_name_resolution.
+Print Assumptions C09_invalid_character_dbr.
 Print Assumptions C09_total.
